@@ -55,9 +55,9 @@
 (*  C14:identical       identical image already at the target, yet a write *)
 (* C03 and C14 are evaluated on runs without injected fault, cancellation  *)
 (* or death (their quantifiers range over inputs, configurations and       *)
-(* schedules, not over faults); C14:get-present also on runs whose only    *)
-(* disturbances were transient faults below the retry limit; C04 on every  *)
-(* run.                                                                    *)
+(* schedules, not over faults); C14:get-present, C14:no-mount and          *)
+(* C14:identical also on runs whose only disturbances were transient       *)
+(* faults below the retry limit; C04 on every run.                         *)
 (*                                                                         *)
 (* Reading of the statements where they leave room (see design.d):         *)
 (*  - a manifest's "children" are its descriptors (config, layers,         *)
@@ -279,7 +279,15 @@ ListingChecks(ok, s, w) ==
 \* when the only disturbances were transient, retryable faults below the retry limit (hdr.transient):
 \* they have to be absorbed without changing what is transferred.
 Transient == hdr.transient = 1
-C14TChecks(s) == << <<"C14", \E b \in Range(gets) : b \in init0.b, "C14:get-present">> >>
+\* So do "uses a server-side mount whenever the registry grants it" (a mount the registry grants on the
+\* retried request is granted: a transient failure of the mount POST is no refusal, only a 202 declines)
+\* and "copying onto a target that already holds the identical image writes nothing at all".
+\* ("twice" is not judged there: a failed upload is legitimately followed by a second fetch.)
+C14TChecks(s) ==
+  LET bl == Range(gets) \cup Range(commits)
+  IN << <<"C14", \E b \in Range(gets) : b \in init0.b, "C14:get-present">>,
+        <<"C14", On(hdr.mountok) /\ (bl \ declined) # {}, "C14:no-mount">>,
+        <<"C14", Identical /\ ~On(hdr.force) /\ (Len(commits) > 0 \/ nManPut > 0 \/ s # init0), "C14:identical">> >>
 
 \* ImageCopy returned; s is the raw target store at that moment
 PResult(ok, s) ==
